@@ -73,7 +73,7 @@ Definition use_ok (u : site) : bool :=
 
 (* ambient state found in the source, all of it justified here:
    - `static` items: immutable tables and constants (no `static mut`, no interior mutability anywhere);
-   - std::env::args in main: the command line IS the input;
+   - std::env::args_os in main: the command line IS the input;
    - `unsafe`: the extern declaration of SetConsoleMode in windows_console.rs (cfg(windows) console set-up);
    - {:?} formatting: of BigInt / Value / Option<usize> under --debug-iters, of Span / file handle (numbers) for the
      de-duplication key of report.rs and Span's Debug; none of a type containing a hash container. *)
@@ -96,7 +96,7 @@ Definition allowed_ambient : list site := [
   ("src/diagn/report.rs", "wrap_in_parents_dedup", "debug-format", "5e7a11e3285520f4");
   ("src/diagn/span.rs", "fmt", "debug-format", "12cd1bd2169823b8");
   ("src/expr/eval.rs", "<struct EvalContext>", "static", "ab04cf62c070de5b");      (* static ASM_HYGIENIZE_PREFIX: &'static str = "__"; *)
-  ("src/main.rs", "main", "environment", "648dc19957224058");                      (* let args: Vec<String> = std::env::args().collect(); *)
+  ("src/main.rs", "main", "environment", "f0347a4e84248a22");                      (* let args: Vec<String> = std::env::args_os()   (since fix 818a58b; before: std::env::args()) *)
   ("src/syntax/token.rs", "check_for_identifier", "static", "65d7a04c91696ef0");   (* static KEYWORDS: [(&str, TokenKind); 3] = *)
   ("src/syntax/token.rs", "check_for_special", "static", "7800be565b421669");      (* static TOKENS: [(&str, TokenKind); 40] = *)
   ("src/util/windows_console.rs", "SetConsoleMode", "unsafe", "629e3fc948fb5ca5")
